@@ -167,25 +167,36 @@ macro_rules! drive {
                 Some($pat) => json!($body),
                 None => json!([]),
             };
-            $gets.push(json!([[e.id(), e.gen().id()], ents.is_alive(e), r]));
+            // get_unchecked: by index only, aliveness not consulted
+            let u = match it.get_unchecked(e.id()) {
+                Some($pat) => json!($body),
+                None => json!([]),
+            };
+            $gets.push(json!([[e.id(), e.gen().id()], ents.is_alive(e), r, u]));
         }
     }};
     (@par yes, $run:ident, $tuple:expr, |$pat:pat_param| $body:expr) => {{
         let pool = rayon::ThreadPoolBuilder::new().num_threads($run.threads.max(1)).build().unwrap();
         let out = Mutex::new(Vec::<Value>::new());
-        pool.install(|| {
-            ($tuple).par_join().for_each(|$pat| {
-                // a little work so that other workers get a chance to steal
-                let mut x = 0u64;
-                for k in 0..200 {
-                    x = x.wrapping_mul(31).wrapping_add(k);
-                }
-                std::hint::black_box(x);
-                let v = json!($body);
-                out.lock().unwrap().push(v);
-            })
-        });
-        out.into_inner().unwrap()
+        if $run.threads % 2 == 1 {
+            // map + collect instead of for_each
+            let v: Vec<Value> = pool.install(|| ($tuple).par_join().map(|$pat| json!($body)).collect());
+            v
+        } else {
+            pool.install(|| {
+                ($tuple).par_join().for_each(|$pat| {
+                    // a little work so that other workers get a chance to steal
+                    let mut x = 0u64;
+                    for k in 0..200 {
+                        x = x.wrapping_mul(31).wrapping_add(k);
+                    }
+                    std::hint::black_box(x);
+                    let v = json!($body);
+                    out.lock().unwrap().push(v);
+                })
+            });
+            out.into_inner().unwrap()
+        }
     }};
     (@par no, $run:ident, $tuple:expr, |$pat:pat_param| $body:expr) => {{
         vec![json!("unsupported")]
